@@ -475,6 +475,61 @@ func coincidenceGapCase(t *mon.T, k int64) {
 	t.Nontrivial(fmt.Sprintf("cg|%d|%s|%v", k, c, neg))
 }
 
+// bitTailCase: x = c*10^k + m*2^j against y = c E k for one small gap k and
+// EVERY bit position j with m*2^j < 10^k (m = 1 and one other small odd
+// multiplier), both orders and both signs of the tail: a comparison that
+// looks at the low k digits through machine-word arithmetic sees a tail that
+// is a multiple of 2^32 or 2^64 as zero.
+func bitTailCase(t *mon.T, k int64) {
+	r := t.Rng
+	cs := []*big.Int{big.NewInt(1), big.NewInt(r.Range(2, 99)), big.NewInt(r.Range(100, 1<<40)), new(big.Int).SetUint64(1<<64 - 1),
+		new(big.Int).Add(new(big.Int).Lsh(bOne, uint(r.Range(64, 200))), big.NewInt(r.Range(0, 9)))}
+	c := cs[r.Intn(len(cs))]
+	neg := r.Bool()
+	y := dec.D{Form: dec.Finite, Neg: neg, C: c, E: k + r.Range(-3, 3)}
+	if r.Chance(1, 2) {
+		y.E = k
+	}
+	ay := br.ToApd(y)
+	scaled := new(big.Int).Mul(c, dec.Pow10(k))
+	lim := dec.Pow10(k)
+	for j := uint(0); ; j++ {
+		b := new(big.Int).Lsh(bOne, j)
+		if b.Cmp(lim) >= 0 {
+			break
+		}
+		for _, m := range []int64{1, 2*r.Range(1, 4) + 1} {
+			tail := new(big.Int).Mul(b, big.NewInt(m))
+			if tail.Cmp(lim) >= 0 {
+				continue
+			}
+			for _, sg := range []int{1, -1} {
+				cx := new(big.Int).Set(scaled)
+				if sg > 0 {
+					cx.Add(cx, tail)
+				} else {
+					cx.Sub(cx, tail)
+				}
+				if cx.Sign() <= 0 {
+					continue
+				}
+				x := dec.D{Form: dec.Finite, Neg: neg, C: cx, E: y.E - k}
+				ax := br.ToApd(x)
+				want, wantT := dec.Cmp(x, y), refCmpTotal(x, y)
+				got, rev, ct, ctr := ax.Cmp(ay), ay.Cmp(ax), ax.CmpTotal(ay), ay.CmpTotal(ax)
+				t.EvalN(4)
+				if got != want || rev != -want || ct != wantT || ctr != -wantT {
+					t.Fail("cmp-wrong", map[string]interface{}{"kind": "bit-tail", "gap": k, "y": y.String(), "x": x.String(), "tail": fmt.Sprintf("%d*2^%d", int64(sg)*m, j),
+						"cmp": got, "reverse": rev, "cmptotal": ct, "cmptotal_reverse": ctr, "want": want, "want_total": wantT})
+					return
+				}
+			}
+		}
+	}
+	t.Count("pair/bit-tail")
+	t.Nontrivial(fmt.Sprintf("bt|%d|%s|%v", k, c, neg))
+}
+
 func runC15(r *mon.Run) {
 	r.Rule = "pairs engineered for each path of Cmp: equal exponents; different adjusted magnitudes; equal digit-count+exponent sums with equal or " +
 		"one-unit-different aligned coefficients; cohorts (equal value, different exponent); zeros of either sign and any exponent; " +
@@ -482,7 +537,7 @@ func runC15(r *mon.Run) {
 		"the exact comparison on big integers, CmpTotal with the documented ranking; antisymmetry, reflexivity, zero-iff-identical, and " +
 		"transitivity on pools of 7 values (sorted-chain consistency plus explicit triples); a digit-count sweep compares, for every " +
 		"coefficient length d up to 3000 (quick; 160 sampled lengths up to 120000) / every d up to 120000 (thorough), a nines-leading d-digit " +
-		"coefficient with its cohort twin and three neighbours; exponent gaps and digit counts at every k up to 200200 where 10^k lies within 5e-4 of a power of two, with coefficients next to powers of two. distinct_nontrivial = distinct pairs that " +
+		"coefficient with its cohort twin and three neighbours; exponent gaps and digit counts at every k up to 200200 where 10^k lies within 5e-4 of a power of two, with coefficients next to powers of two; for every gap 1..128, low digits equal to +/-m*2^j for every bit position j below the gap. distinct_nontrivial = distinct pairs that " +
 		"reach the rescaled comparison or are cohort pairs, and distinct pools."
 	r.Assumptions = []string{"math/big is correct", "NaN payload ordering is held only to the order axioms"}
 	r.Parallel("pairs", r.N(400000, 40000000), cmpCase)
@@ -496,6 +551,9 @@ func runC15(r *mon.Run) {
 	r.Parallel("twin-pools", r.N(600, 60000), twinPoolCase)
 	// the same single-bit and single-digit differences at ordinary gaps of 129..2000 places
 	r.Parallel("gap-perturbations", r.N(3000, 300000), func(t *mon.T) { coincidenceGapCase(t, t.Rng.Range(129, 2000)) })
+	// small gaps 1..128: every bit position inside the low digits
+	r.Parallel("bit-tails", 128*r.N(3, 60), func(t *mon.T) { bitTailCase(t, t.Index%128+1) })
+	r.Require("pair/bit-tail", 300)
 	coin := gen.CoincidenceExps(129, 200200, 5e-4)
 	r.Parallel("coincidence-gaps", int64(len(coin))*r.N(2, 8), func(t *mon.T) { coincidenceGapCase(t, coin[t.Index%int64(len(coin))]) })
 	r.Parallel("coincidence-digit-counts", int64(len(coin))*5, func(t *mon.T) {
